@@ -30,7 +30,7 @@ RULE = ('cases = (ranked chi² vector over {1, 2, 3.5, +inf, NaN} of length 0..5
 REQUIRED_BRANCHES = ['form_A', 'form_N', 'form_C', 'form_D', 'form_E', 'form_F', 'empty', 'tie', 'inf', 'nan',
                      'nan_first', 'inf_first', 'n_gt_total', 'n_fractional', 'keeps_none', 'keeps_all', 'keeps_some',
                      'cut_between_distinct', 'flags_non_fitted', 'ndata0_E', 'ndata0_F', 'ndata0_empty_flags', 'thr_pinf', 'thr_ninf', 'thr_nan', 'num_int', 'num_np_float64',
-                     'num_np_int64', 'num_np_float32', 'fitted', 'fitted_from_fitter', 'fitted_from_file', 'fitted_pair', 'keep_tuple', 'keep_list', 'keep_keyword', 'info_via_copy', 'info_via_deepcopy', 'info_via_pickle',
+                     'num_np_int64', 'num_np_float32', 'fitted', 'fitted_from_fitter', 'fitted_from_file', 'fitted_pair', 'photometry_tiny_flux', 'photometry_huge_error', 'photometry_flag4_huge_error', 'keep_tuple', 'keep_list', 'keep_keyword', 'info_via_copy', 'info_via_deepcopy', 'info_via_pickle',
                      'nfits_read_before_keep', 'nfits_read_between_keeps', 'flags_edited_in_place', 'flags_edited_shared_array',
                      'flags_replaced_by_setter', 'ndata_changed_by_edit', 'fitted_flags_edited', 'pair_idem', 'pair_looser', 'pair_stricter', 'long']
 ASSUMPTIONS = ['rounding of (chi2 - chi2[0]) / n_data is not modelled: thresholds are kept at least 1e-6 (relative) away '
@@ -176,6 +176,32 @@ def typed_number(v, numtype):
 
 
 EDIT_MODES = ['source', 'shared', 'setter']
+# positive, finite photometry at the ends of the decades: the fitting weight of such a point underflows to 0, but it is
+# still a point flagged 1 / 4 and n_data counts flags, not weights.  (Zero flux and infinite errors are outside C01-C03.)
+PHOTOMETRY = {'tiny_flux': (1e-200, 1e-40), 'huge_error': (1e-150, 1e150), 'flag4_huge_error': (2.5, 1e200)}
+
+
+def with_photometry(case, which):
+    case['photometry'] = which
+    return case
+
+
+def set_photometry(info, which):
+    """give the first point flagged 1 (or 4 for the flag-4 variant) the extreme values"""
+    flux, err = PHOTOMETRY[which]
+    want = 4 if which == 'flag4_huge_error' else 1
+    v = np.asarray(info.source.valid)
+    idx = [j for j in range(len(v)) if v[j] == want] or [j for j in range(len(v)) if v[j] in (1, 4)]
+    if not idx:
+        return False
+    f = np.array(info.source.flux, dtype=float)
+    e = np.array(info.source.error, dtype=float)
+    f[idx[0]] = flux
+    e[idx[0]] = err
+    info.source.flux = f
+    info.source.error = e
+    return True
+
 
 
 def with_flag_edit(case, flags_before, mode):
@@ -245,6 +271,11 @@ def directed():
     yield mk_case([1, 2, 2, I, Nn], [1, 4, 2], [('N', 2), ('D', 0.5)], numtypes=['np.int64', 'np.float64'])
     yield mk_case([1, 2, 2, I, Nn], [1, 4, 2], [('E', 1.25), ('N', 2.5)], numtypes=['np.float32', 'np.float32'])
     yield mk_case([1, 2, 2, I, Nn], [1, 4, 2], [('F', 1), ('C', 4)], numtypes=['np.int64', 'int'])
+    # a fitted point whose weight underflows is still a fitted point: thresholds between chi2/3 and chi2/2
+    yield with_photometry(mk_case([1, 2, 3.5], [1, 1, 1], [('E', 1.5)]), 'tiny_flux')
+    yield with_photometry(mk_case([1, 2, 3.5], [1, 1, 1], [('F', 1.)]), 'huge_error')
+    yield with_photometry(mk_case([1, 2, 3.5, 3.5], [1, 4, 2], [('E', 1.5), ('F', 0.75)]), 'flag4_huge_error')
+    yield with_photometry(mk_case([2, 2, 3.5, I], [4, 1, 0, 9], [('E', 1.5)]), 'tiny_flux')
     # the flags of the same Source object change between uses: n_data must follow the flags as they are now
     yield with_flag_edit(mk_case([1, 2, 2, 3.5, I], [1, 0, 0, 1], [('E', 0.75)]), [1, 1, 1, 1], 'source')
     yield with_flag_edit(mk_case([1, 2, 2, 3.5, I], [1, 0, 0, 1], [('F', 0.75)]), [1, 1, 1, 1], 'shared')
@@ -390,6 +421,8 @@ def gen_cases(seed, tier):
                 c = mk_case(chi2, flags, [s1, s2], numtypes=[rng.choice(NUMTYPES), rng.choice(NUMTYPES)])
             if flags and rng.random() < 0.2:
                 with_flag_edit(c, rand_flags_before(rng, flags), rng.choice(EDIT_MODES))
+            elif n_data_of(flags) and rng.random() < 0.25:
+                with_photometry(c, rng.choice(sorted(PHOTOMETRY)))
             yield c
     for k in range(N_FITTED[tier]):
         yield fitted_case(case_rng(seed, PID, 'fitted-%d' % k))
@@ -588,6 +621,15 @@ def property_side(case):
             br.add('num_' + js[2].replace('.', '_'))
     what = 'chi2=%r flags=%r' % (case['chi2'], flags)
     fresh = lambda: ef.build_info(chi2, pay, flags=flags)
+    if case.get('photometry'):
+        which = case['photometry']
+        what += ' (one fitted point has flux, error = %r, %r)' % PHOTOMETRY[which]
+
+        def fresh():
+            info = ef.build_info(chi2, pay, flags=flags)
+            if set_photometry(info, which):
+                br.add('photometry_' + which)
+            return info
     if 'flags_before' in case:
         mode = case['edit']
         br.add({'source': 'flags_edited_in_place', 'shared': 'flags_edited_shared_array', 'setter': 'flags_replaced_by_setter'}[mode])
